@@ -14,6 +14,9 @@ open DM DM.Txn
 def progOf (op : String) : Option Prog :=
   match op with
   | "insert" | "insert_stats" | "insert_checked" => some dtInsertGuarded
+  -- repair Never + check EveryN(n): guarded when the check is due, bare otherwise; the guarded
+  -- program contains every failpoint of both
+  | "insert_chk2_p0" | "insert_chk2_p1" | "insert_chk3_p0" | "insert_chk3_p1" | "insert_chk3_p2" => some dtInsertGuarded
   | "insert_bare" => some dtInsertBare
   | "remove" => some dtRemoveGuarded
   | "flip_k2" | "flip_k3" | "flip_k2inv" | "flip_k1_insert" | "flip_k1_remove" => some editFlip
